@@ -54,14 +54,11 @@ Proof. exact render_tagged_no_type_rt. Qed.
 (* control operators: name table, and the grammar's ordered choice *)
 Theorem C06_render_ctl_rt : forall c, parse_ctl (render_ctl c) = Some c.
 Proof. exact render_ctl_rt. Qed.
-(* FULL: forall c rest, peg_ctl (render_ctl c ++ 32 :: rest) = Some (c, 32 :: rest) - false only for .cborseq, which
-   cddl.pest's ordered choice can never produce ("cbor" is tried first): a defect of the grammar, not of the printer *)
-Theorem C06_render_ctl_peg_partial : forall c rest, c <> CCborseq -> peg_ctl (render_ctl c ++ 32 :: rest) = Some (c, 32 :: rest).
-Proof. exact render_ctl_peg_partial. Qed.
-Theorem C06_render_ctl_peg_refuted : peg_ctl (render_ctl CCborseq ++ [32]) = Some (CCbor, [115; 101; 113; 32]).
-Proof. exact render_ctl_peg_refuted. Qed.
+(* at the level of the grammar (ordered choice with token boundary, 8d55c20): all 37 operators, .cborseq included *)
+Theorem C06_render_ctl_peg_rt : forall c rest, peg_ctl (render_ctl c ++ 32 :: rest) = Some (c, 32 :: rest).
+Proof. exact render_ctl_peg_rt. Qed.
 (* Type1::fmt separates a control operator from its controller by a blank: it is read back as itself whatever follows *)
-Theorem C06_render_type1_ctl : forall name_like left c right, c <> CCborseq ->
+Theorem C06_render_type1_ctl : forall name_like left c right,
   exists pre, render_type1 name_like left (render_ctl c) true right = pre ++ render_ctl c ++ 32 :: right /\
               peg_ctl (render_ctl c ++ 32 :: right) = Some (c, 32 :: right).
 Proof. exact render_type1_ctl. Qed.
